@@ -128,7 +128,7 @@ def m_pow(a, b):
 
 
 ENV = {"m_exp": m_exp, "m_log": m_log, "m_sqrt": m_sqrt, "m_tanh": m_tanh, "m_sin": m_sin, "m_cos": m_cos,
-       "m_tan": m_tan, "m_div": m_div, "m_pow": m_pow, "abs": abs, "__builtins__": {}}
+       "m_tan": m_tan, "m_div": m_div, "m_pow": m_pow, "abs": abs, "max": max, "min": min, "__builtins__": {}}
 
 
 class Formulas:
